@@ -31,7 +31,7 @@ func init() {
 			}
 			return []string{"release", "debug"}
 		},
-		Required: []string{"mask/full", "mask/leaf-only", "mask/partial", "node/root", "node/leaf", "node/absent-level", "node/stored-level", "h=30", "h>=11", "index>=2^30", "path/all-right", "path/all-left", "sequence/related-masks-alternating"},
+		Required: []string{"long-run/calls>=100000-per-function", "mask/full", "mask/leaf-only", "mask/partial", "node/root", "node/leaf", "node/absent-level", "node/stored-level", "h=30", "h>=11", "index>=2^30", "path/all-right", "path/all-left", "sequence/related-masks-alternating"},
 		Families: func(c *mon.Config) []mon.Family {
 			hmax := c.Pick(10, 13)
 			return []mon.Family{
@@ -40,6 +40,7 @@ func init() {
 				{Name: "all-masks-all-nodes", N: (1 << uint(hmax+1)) - 1, Run: c03AllSmall},
 				{Name: "large-heights", Env: 20, N: 20 * c.Pick(200, 20000), Run: c03Large},
 				{Name: "related-mask-sequences", Env: 10, N: c.Pick(600, 60000), Run: c03Sequences},
+				lrFamily(c03LongRun),
 			}
 		},
 		Merge: func(tier string, rs map[string]*mon.Result) []mon.Violation {
